@@ -24,6 +24,10 @@ Delta(ev) == ev.l1 - ev.l0
 Fired(ev) == Has(ev, "fired") /\ ev.fired = 1
 AllocFailed(ev) == Has(ev, "afail") /\ ev.afail = 1
 Cls(cls, rc, what) == IF Matches(cls, rc) THEN {} ELSE {what}
+\* the caller replaced an entry of the backend's operation table (the repository's tests inject failures that way): no
+\* result class is expected from such a call; what it may keep allocated is still checked
+Stubbed(ev) == Has(ev, "stubbed") /\ ev.stubbed = 1
+ClsU(ev, cls, rc, what) == IF Stubbed(ev) THEN {} ELSE Cls(cls, rc, what)
 \* common ledger rules: a failing call keeps nothing (R1); the library never frees a caller buffer (R6)
 Common(ev, prop) ==
      (IF ev.rc < 0 /\ Delta(ev) # 0 THEN {prop \o " failed call changed the live block count (kept or released memory)"} ELSE {})
@@ -62,17 +66,17 @@ OnEncode(ev) ==
    LET cls == ExpectEncode(st, ev.x, ev.nullmask, Fired(ev))
        nullout == Has(ev, "nullout") /\ ev.nullout = 1
        s2 == EncodeEffect(st, ev.x, ev.T, IF nullout THEN -1 ELSE ev.rc)
-   IN [v |-> Cls(cls, ev.rc, "C13 encode: argument class refused or accepted wrongly")
+   IN [v |-> ClsU(ev, cls, ev.rc, "C13 encode: argument class refused or accepted wrongly")
              \cup (IF nullout THEN {"C16 encode reported success without handing out its output arrays"} ELSE {})
              \cup (IF ev.rc = 0 /\ ~nullout /\ Delta(ev) <= 0 THEN {"C16 encode handed out nothing"} ELSE {})
              \cup Common(ev, "C13"),
        s |-> s2, e |-> IF ev.rc = 0 /\ ~nullout THEN [t \in DOMAIN encD \cup {ev.T} |-> IF t = ev.T THEN Delta(ev) ELSE encD[t]] ELSE encD, d |-> decD]
 OnEncClean(ev) ==
    LET cls == ExpectEncClean(st, ev.x)
-       released == ev.had = 1 /\ ev.nullmask = 0
+       released == ev.had \in {1, 2} /\ ev.nullmask = 0     \* 2: the caller had released part of it itself before
        s2 == EncCleanEffect(st, ev.x, ev.T, ev.rc, released)
    IN [v |-> Cls(cls, ev.rc, "C13 encode_cleanup: descriptor class")
-             \cup (IF ev.rc = 0 /\ released /\ ev.T \in DOMAIN encD /\ Delta(ev) # 0 - encD[ev.T]
+             \cup (IF ev.rc = 0 /\ released /\ ev.had = 1 /\ ev.T \in DOMAIN encD /\ Delta(ev) # 0 - encD[ev.T]
                    THEN {"C16 encode_cleanup did not release exactly what encode handed out"} ELSE {})
              \cup (IF ev.rc = 0 /\ ~released /\ Delta(ev) # 0 THEN {"C16 encode_cleanup of nothing changed the live block count"} ELSE {})
              \cup Common(ev, "C13") \cup AtRest(s2, ev.l1),
@@ -85,7 +89,7 @@ OnDecode(ev) ==
        cls == ExpectDecode(st, ev.x, ev.nullmask, ev.flc, ev.nfrag, ev.nfrag, SameCfg(ev), tol, Fired(ev))
        excused == ev.rc < 0 /\ ExcusedBy(ev.be, ev.k, ev.m, MissingIn(ev))
        s2 == DecodeEffect(st, ev.x, ev.U, ev.rc)
-   IN [v |-> (IF excused THEN {} ELSE Cls(cls, ev.rc, "C13/C01 decode: argument class or tolerated erasure set judged wrongly"))
+   IN [v |-> (IF excused THEN {} ELSE ClsU(ev, cls, ev.rc, "C13/C01 decode: argument class or tolerated erasure set judged wrongly"))
              \cup (IF ev.rc = 0 /\ SameCfg(ev) /\ ev.match # 1 THEN {"C02 success with wrong bytes"} ELSE {})
              \cup (IF ev.rc = 0 /\ Delta(ev) <= 0 THEN {"C16 decode handed out nothing"} ELSE {})
              \cup Common(ev, "C13"),
@@ -103,13 +107,25 @@ OnRecon(ev) ==
    LET tol == TolBy(ev.be, ev.k, ev.m, ev.hd, MissingIn(ev))
        cls == ExpectRecon(st, ev.x, ev.nullmask, ev.flc, ev.U, ev.nfrag, ev.nfrag, SameCfg(ev), tol, Fired(ev))
        excused == ev.rc < 0 /\ ExcusedBy(ev.be, ev.k, ev.m, MissingIn(ev))
-   IN [v |-> (IF excused THEN {} ELSE Cls(cls, ev.rc, "C13/C03 reconstruct: argument class or tolerated erasure set judged wrongly"))
+   IN [v |-> (IF excused THEN {} ELSE ClsU(ev, cls, ev.rc, "C13/C03 reconstruct: argument class or tolerated erasure set judged wrongly"))
              \cup (IF ev.rc = 0 /\ SameCfg(ev) /\ ev.same # 1 THEN {"C02 reconstruct success with wrong bytes"} ELSE {})
              \cup Common(ev, "C13") \cup NoDelta(ev),
        s |-> st, e |-> encD, d |-> decD]
+\* C06 on histories: for a live instance and well-formed index lists the answer is a usable, sufficient list, and within
+\* the tolerance the query succeeds
+NeededRule(ev) ==
+   IF ev.x \notin Live(st) \/ ev.nullmask # 0 \/ Fired(ev) \/ Stubbed(ev) \/ ~Has(ev, "R") \/ ~Has(ev, "X") THEN {}
+   ELSE LET c == st.live[ev.x]  R == ev.R  X == ev.X
+            both == Range(R) \cup Range(X)
+            wellformed == NoDup(R \o X) /\ both \subseteq 0..(c.k + c.m - 1) /\ Len(R) > 0
+            known == (c.be = 3 /\ HasTable(c.k, c.m, c.hd)) \/ c.be \in {4, 6, 7}
+        IN IF ~wellformed \/ ~known THEN {}
+           ELSE (IF ev.rc >= 0 /\ Has(ev, "N") /\ ~(IF c.be = 3 THEN NeededOK(TableOf(c.k, c.m, c.hd), R, X, ev.N) ELSE RsNeededOKBy(c.k, c.m, R, X, ev.N))
+                 THEN {"C06 wrong list returned"} ELSE {})
+           \cup (IF TolBy(c.be, c.k, c.m, c.hd, both) /\ ev.rc < 0 THEN {"C06 refused within tolerance"} ELSE {})
 OnNeeded(ev) ==
    LET cls == ExpectSimple(st, ev.x, ev.nullmask, Fired(ev))
-   IN [v |-> Cls(cls, ev.rc, "C13 fragments_needed: argument class") \cup Common(ev, "C13") \cup NoDelta(ev),
+   IN [v |-> ClsU(ev, cls, ev.rc, "C13 fragments_needed: argument class") \cup Common(ev, "C13") \cup NoDelta(ev) \cup NeededRule(ev),
        s |-> st, e |-> encD, d |-> decD]
 OnMeta(ev) ==
    [v |-> Cls(IF ev.nullmask # 0 THEN "neg" ELSE "ok", ev.rc, "C13 get_fragment_metadata: argument class") \cup Common(ev, "C13") \cup NoDelta(ev),
@@ -154,8 +170,19 @@ Drift(ev) ==
      [] ev.e = "Proj" -> ev.next # st.next \/ GfDrift(ev, st)
      [] OTHER -> FALSE
 
+\* a call of the repository's own tests whose inputs the recorder could not identify (harness/suiteshim.c): the ledger
+\* rules only; a successful decode still hands out an output the caller owes back
+OnAny(ev) ==
+   LET dec == Has(ev, "dec") /\ ev.rc = 0 IN
+   [v |-> (IF ev.ff # 0 THEN {"C16 library freed a pointer it does not own"} ELSE {})
+          \cup (IF ev.rc < 0 /\ Delta(ev) > 0 THEN {"C16 failed call kept memory"} ELSE {}),
+    s |-> IF dec THEN [st EXCEPT !.owedD = @ \cup {<<ev.x, ev.U>>}] ELSE st,
+    e |-> encD,
+    d |-> IF dec THEN [u \in DOMAIN decD \cup {ev.U} |-> IF u = ev.U THEN Delta(ev) ELSE decD[u]] ELSE decD]
+
 Step(ev) ==
    CASE ev.e = "HCreate" -> OnCreate(ev)
+     [] ev.e = "HAny" -> OnAny(ev)
      [] ev.e = "HDestroy" -> OnDestroy(ev)
      [] ev.e = "HEncode" -> OnEncode(ev)
      [] ev.e = "HEncClean" -> OnEncClean(ev)
